@@ -197,6 +197,52 @@ theorem merge_calls_ok :
 (computed on the SSA of `reWriteData` by dominance) -/
 theorem rewrite_under_lock : rewriteUnlocked = [] := by decide
 
+/-- the lines of ds/zset/sortedset.go that `Nuts.Model.Skiplist` was written from: every statement on a span,
+on `rank[]`, on `traversed`, every search-loop condition, every score / forward test -/
+def expectedSpanStmts : List (String × String × String) := [
+  ("insertNode", "assign", "rank[i] = 0"),
+  ("insertNode", "assign", "rank[i] = rank[i+1]"),
+  ("insertNode", "while", "x.level[i].forward != nil && (x.level[i].forward.score < score || (x.level[i].forward.score == score && x.level[i].forward.key < key))"),
+  ("insertNode", "assign", "rank[i] += x.level[i].span"),
+  ("insertNode", "assign", "rank[i] = 0"),
+  ("insertNode", "assign", "update[i].level[i].span = ss.length"),
+  ("insertNode", "assign", "x.level[i].span = update[i].level[i].span - (rank[0] - rank[i])"),
+  ("insertNode", "assign", "update[i].level[i].span = (rank[0] - rank[i]) + 1"),
+  ("insertNode", "incdec", "update[i].level[i].span++"),
+  ("insertNode", "if", "x.level[0].forward != nil"),
+  ("deleteNode", "if", "update[i].level[i].forward == x"),
+  ("deleteNode", "assign", "update[i].level[i].span += x.level[i].span - 1"),
+  ("deleteNode", "assign", "update[i].level[i].span -= 1"),
+  ("deleteNode", "if", "x.level[0].forward != nil"),
+  ("deleteNode", "while", "ss.level > 1 && ss.header.level[ss.level-1].forward == nil"),
+  ("delete", "while", "x.level[i].forward != nil && (x.level[i].forward.score < score || (x.level[i].forward.score == score && x.level[i].forward.key < key))"),
+  ("delete", "if", "x != nil && score == x.score && x.key == key"),
+  ("Put", "if", "n.score == score"),
+  ("searchForward", "while", "x.level[i].forward != nil && x.level[i].forward.score <= start"),
+  ("searchForward", "while", "x.level[i].forward != nil && x.level[i].forward.score < start"),
+  ("searchForward", "while", "x != nil && limit > 0"),
+  ("searchForward", "if", "x.score >= end"),
+  ("searchForward", "if", "x.score > end"),
+  ("searchReverse", "while", "x.level[i].forward != nil && x.level[i].forward.score < end"),
+  ("searchReverse", "while", "x.level[i].forward != nil && x.level[i].forward.score <= end"),
+  ("searchReverse", "while", "x != nil && limit > 0"),
+  ("searchReverse", "if", "x.score <= start"),
+  ("searchReverse", "if", "x.score < start"),
+  ("GetByRankRange", "assign", "traversed = 0"),
+  ("GetByRankRange", "while", "x.level[i].forward != nil && traversed+int(x.level[i].span) < start"),
+  ("GetByRankRange", "assign", "traversed += int(x.level[i].span)"),
+  ("GetByRankRange", "if", "traversed+1 == start"),
+  ("GetByRankRange", "incdec", "traversed++"),
+  ("GetByRankRange", "while", "x != nil && traversed <= end"),
+  ("GetByRankRange", "incdec", "traversed++"),
+  ("FindRank", "while", "x.level[i].forward != nil && (x.level[i].forward.score < node.score || (x.level[i].forward.score == node.score && x.level[i].forward.key <= node.key))"),
+  ("FindRank", "assign", "rank += int(x.level[i].span)")]
+
+/-- **the skiplist's span arithmetic and search conditions, regenerated.** The source lines listed above are
+the ones in the tree now (same functions, same order, same text): a changed span update, rank accumulation,
+loop condition or bound test in ds/zset breaks this obligation. -/
+theorem span_arithmetic_ok : spanStmts = expectedSpanStmts := by decide +kernel
+
 /-- **`Backup` is one read transaction.** Regenerated from db.go: the body of `DB.Backup` outside the function
 literal does nothing but call `db.View` (no file-system call, no other nutsdb call, no field of `*DB`), and the
 literal handed to `View` calls `filesystem.CopyDir` and nothing else — so every byte Backup reads from the
